@@ -3,6 +3,7 @@ package c10
 import (
 	"fmt"
 	"math/big"
+	"os"
 	"sort"
 	"strings"
 	"testing"
@@ -26,7 +27,7 @@ import (
 
 func TestMain(m *testing.M) { drv.Main(m) }
 
-const rule = "state machine on the real application: 1-2 balancer pools (2 assets, and 3 assets whose denoms share prefixes aaa/bbb/bbb2; reserves 5..2e4 units in a third of the assets, else 1e6..1e12; all-asset joins and exits, whose per-asset rounding moves the price of a small pool, and single-asset joins) and optionally one concentrated pool that is created empty or funded, drained (every position withdrawn: no spot price) and refilled, blocks with irregular spacing (1 ms .. days; in half of the cases with nanosecond parts, as real block times have, and queries at nanosecond offsets - the reference weights each segment by the difference of the millisecond-floored timestamps, the module's canonical time), price-moving swaps / joins / exits in some blocks and idle blocks, the twap module's EndBlock after every block (transient changed-pool set cleared as a commit would), pruning passes (twap epoch hook + EndBlock batches run to completion) and queries: every ordered pair of a pool, start/end on, between, before and after record times, ...ToNow variants; oracle: the harness records the end-of-block spot price it obtains itself from the pool manager after every block; arithmetic TWAP == trunc18(sum p_i dt_i / dt) exactly; geometric TWAP == 2^(sum log2(p_i) dt_i / dt) within relative 2e-7 (the module rounds the result to 8 significant figures and derives one quote direction from the reciprocal of the other's 8-significant-figure spot prices); both within [min,max] of the prices in force; the two geometric quote directions multiply to 1 within 4e-7; a start before the first record fails cleanly; an interval in which a drained pool's missing price is in force must return an error flag (intervals touching only the creation block of a pool funded in that block may or may not be flagged); answers for intervals inside the retention window are identical before and after a complete pruning pass; non-trivial = interval spans >= 2 records with different prices and does not start on a record; distinct by history+query hash"
+const rule = "state machine on the real application: 1-2 balancer pools (2 assets, and 3 assets whose denoms share prefixes aaa/bbb/bbb2; reserves 5..2e4 units in a third of the assets, else 1e6..1e12; all-asset joins and exits, whose per-asset rounding moves the price of a small pool, and single-asset joins) and optionally one concentrated pool that is created empty or funded, drained (every position withdrawn: no spot price) and refilled, blocks with irregular spacing (1 ms .. days; in half of the cases with nanosecond parts, as real block times have, and queries at nanosecond offsets - the reference weights each segment by the difference of the millisecond-floored timestamps, the module's canonical time), price-moving swaps / joins / exits in some blocks and idle blocks, the twap module's EndBlock after every block (transient changed-pool set cleared as a commit would), pruning passes (twap epoch hook + EndBlock batches run to completion) and queries: every ordered pair of a pool, start/end on, between, before and after record times, ...ToNow variants; oracle: the harness records the end-of-block spot price it obtains itself from the pool manager after every block; arithmetic TWAP == trunc18(sum p_i dt_i / dt) exactly; geometric TWAP == 2^(sum log2(p_i) dt_i / dt) over the recorded prices of asset 0 in asset 1 - the one series the module accumulates - and its reciprocal for the other direction, within relative 3e-7 plus 2e-18 (8-significant-figure rounding of the result, 18-decimal grid); an interval of zero canonical length returns the spot price of the last record at or before its end; both within [min,max] of the prices in force; the two geometric quote directions multiply to 1 within 4e-7; a start before the first record fails cleanly; an interval in which a drained pool's missing price is in force must return an error flag (intervals touching only the creation block of a pool funded in that block may or may not be flagged); answers for intervals inside the retention window are identical before and after a complete pruning pass; non-trivial = interval spans >= 2 records with different prices and does not start on a record; distinct by history+query hash"
 
 type obs struct {
 	t time.Time
@@ -355,19 +356,67 @@ func TestPropTwap(t *testing.T) {
 				if prices[i].Cmp(max) > 0 {
 					max = prices[i]
 				}
-				logSum = ref.Fadd(logSum, ref.Fmul(ref.Log2(ref.FScaled(prices[i], 18)), ref.F(float64(ms[i]))))
+			}
+			// The module keeps ONE geometric accumulator per pair, that of the price of asset 0 (the lexicographically smaller
+			// denom) quoted in asset 1, and answers the other direction with its reciprocal ("the geometric mean of
+			// reciprocals is the reciprocal of the geometric mean"). The reference does the same with the spot prices it
+			// recorded for that direction; the two directions' spot prices of a pool are each computed and rounded on their
+			// own and are not exact reciprocals of one another.
+			a0, a1 := base, quote
+			if a1 < a0 {
+				a0, a1 = a1, a0
+			}
+			key0 := a0 + "/" + a1
+			inverted := key != key0
+			prices0, ms0, ok0 := p.segments(s, e, key0)
+			if !ok0 || len(prices0) != len(prices) {
+				rt.Fatalf("harness: observation series of the two directions differ in shape")
+			}
+			gmin, gmax := ref.FScaled(prices0[0], 18), ref.FScaled(prices0[0], 18)
+			for i := range prices0 {
+				x := ref.FScaled(prices0[i], 18)
+				logSum = ref.Fadd(logSum, ref.Fmul(ref.Log2(x), ref.F(float64(ms0[i]))))
+				if x.Cmp(gmin) < 0 {
+					gmin = x
+				}
+				if x.Cmp(gmax) > 0 {
+					gmax = x
+				}
+			}
+			if inverted {
+				gmin, gmax = ref.Fquo(ref.F(1), gmax), ref.Fquo(ref.F(1), gmin)
 			}
 			var wantA *big.Int
 			var wantG *big.Float
 			if total == 0 {
-				wantA = prices[len(prices)-1]
+				// an interval of zero canonical (millisecond) length has no mean: the module answers with the spot price of
+				// the last record at or before its end - a record lying exactly on the end included
+				wantA, _ = p.priceAt(e, key)
 				wantG = ref.FScaled(wantA, 18)
+				if wantA.Cmp(min) < 0 {
+					min = wantA
+				}
+				if wantA.Cmp(max) > 0 {
+					max = wantA
+				}
 			} else {
 				wantA = new(big.Int).Quo(sum, big.NewInt(total))
 				wantG = ref.Exp2(ref.Fquo(logSum, ref.F(float64(total))))
+				if inverted {
+					wantG = ref.Fquo(ref.F(1), wantG)
+				}
 			}
 			desc := fmt.Sprintf("pool %d base=%s quote=%s [%s, %s] segments=%d", p.id, base, quote, s.Sub(chain.Base), e.Sub(chain.Base), len(prices))
 			if ar.BigInt().Cmp(wantA) != 0 {
+				if os.Getenv("VERIF_DEBUG") != "" {
+					for _, o := range p.obs {
+						fmt.Printf("OBS t=%s %s=%v\n", o.t.Sub(chain.Base), key, o.p[key])
+					}
+					recs, _ := tk.GetAllHistoricalPoolIndexedTWAPsForPoolId(c.Ctx, p.id)
+					for _, r := range recs {
+						fmt.Printf("REC t=%s %s/%s p0=%s p1=%s\n", r.Time.Sub(chain.Base), r.Asset0Denom, r.Asset1Denom, r.P0LastSpotPrice, r.P1LastSpotPrice)
+					}
+				}
 				rt.Fatalf("arithmetic TWAP %s = %s, time-weighted mean of the recorded spot prices is %s/1e18 [history %v]", desc, ar, wantA, hist)
 			}
 			gF := ref.FScaled(ge.BigInt(), 18)
@@ -379,11 +428,13 @@ func TestPropTwap(t *testing.T) {
 					rt.Fatalf("geometric TWAP over an empty interval %s = %s, spot price in force is %s/1e18", desc, ge, wantA)
 				}
 			} else {
-				tol := ref.Fadd(ref.Fmul(wantG, ref.F(2e-7)), ref.F(2e-18))
+				// 8-significant-figure rounding of the result and of its reciprocal (1e-7 relative at most; 3e-7 is used) and
+				// the 18-decimal grid of the result (2e-18)
+				tol := ref.Fadd(ref.Fmul(wantG, ref.F(3e-7)), ref.F(2e-18))
 				if d := ref.Fabs(ref.Fsub(gF, wantG)); d.Cmp(tol) > 0 {
 					rt.Fatalf("geometric TWAP %s = %s, 2^(time-weighted mean of log2 prices) = %s (difference %s) [history %v]", desc, ge, wantG.Text('f', 18), d.Text('g', 4), hist)
 				}
-				lo, hi := ref.Fmul(ref.FScaled(min, 18), ref.F(1-2e-7)), ref.Fmul(ref.FScaled(max, 18), ref.F(1+2e-7))
+				lo, hi := ref.Fsub(ref.Fmul(gmin, ref.F(1-3e-7)), ref.F(2e-18)), ref.Fadd(ref.Fmul(gmax, ref.F(1+3e-7)), ref.F(2e-18))
 				if gF.Cmp(lo) < 0 || gF.Cmp(hi) > 0 {
 					rt.Fatalf("geometric TWAP %s = %s outside [min,max] = [%s,%s]/1e18 of the prices in force", desc, ge, min, max)
 				}
